@@ -8,7 +8,7 @@
 From Coq Require Import ZArith List Bool QArith Lia.
 Require Import SPP.Base.Rt SPP.Model.C09_Arr2 SPP.Model.C09_Spec SPP.Gen.Kernels SPP.Gen.C09 SPP.Model.C09_Rdb
   SPP.Model.C09_Pinned SPP.Model.C09_Stream SPP.Proofs.C09_kernels SPP.Proofs.C09_paths SPP.Proofs.C09_rdb SPP.Proofs.C09_law SPP.Proofs.C09_lawx
-  SPP.Proofs.C09_stream SPP.Proofs.C09_refuted.
+  SPP.Proofs.C09_stream SPP.Proofs.C09_streamw SPP.Proofs.C09_plan SPP.Proofs.C09_refuted.
 Import ListNotations.
 Open Scope Z_scope.
 
@@ -238,6 +238,45 @@ Theorem C09_stream_block_partial : forall x d nchans gulp nsel out nsamps_r ii s
 Proof. exact stream_block_adds_spec. Qed.
 Print Assumptions C09_stream_block_partial.
 
+(** the WHOLE loop, for every requested gulp: over the blocks read_plan yields for a selection of nsel samples
+    (plan_blocks with the read size min(nsel, max(2*maxdelay, gulp)) and the skip-back the call site asks for) the returned
+    series is sum_c x[c][start + t + t0 + d_c] at every t < nsel - span and stays 0 beyond.  [fuel] only bounds the number of
+    blocks (any fuel >= nsel).  Trusted here: that plan_blocks (Model/C09_Stream.v) lists the blocks of FilReader.read_plan --
+    block ii of min(G, what is left) samples at start + ii*(G - skipback), a remainder of at most skipback samples not read --
+    which C01 proves of the regenerated plan (C01_plan_facts, C01_plan_overlap) and the correspondence shard c09_stream checks
+    against the implementation; and the buffer layout [stream_buffer] (sample-major reads: C01/C03). *)
+Theorem C09_stream_whole_file : forall x d nchans gulp nsel start, 1 <= nchans -> (exists r, 0 <= r < nchans /\ 0 <= d r) ->
+  forall fuel, 1 <= gulp -> span_of nchans d < nsel -> nsel <= Z.of_nat fuel ->
+  forall k, stream_run x d nchans gulp nsel
+              (plan_blocks fuel start nsel (Z.min nsel (stream_plan_gulp d nchans gulp nsel)) (stream_plan_skipback d nchans gulp nsel) 0) k
+            = if (0 <=? k) && (k <? nsel - span_of nchans d) then spec_stream x nchans start d (t0_of nchans d) k else 0.
+Proof. exact stream_whole_file. Qed.
+Print Assumptions C09_stream_whole_file.
+
+(** plan_blocks IS the regenerated FilReader.read_plan (Gen/Plan.v, as normalised by C01): entry by entry -- number of blocks,
+    samples per block (elements / nchans), block ii at start + ii*(read size - skipback) *)
+Theorem C09_read_plan_is_plan_blocks : forall gulp0 start nsamps skipback0 N nch fuel,
+  1 <= gulp0 -> 1 <= nsamps -> Z.abs skipback0 < Z.min nsamps gulp0 -> 1 <= nch -> nsamps < Z.of_nat fuel ->
+  exists g sb blocks, Gen.Plan.fil_plan gulp0 start nsamps skipback0 N (N * nch) nch nch = Some (g, sb, start * nch, blocks) /\
+    g = Z.min nsamps gulp0 /\ sb = Z.abs skipback0 /\
+    map (plan_entry start g sb nch) blocks = C09_Stream.plan_blocks fuel start nsamps g sb 0.
+Proof. exact read_plan_is_plan_blocks. Qed.
+Print Assumptions C09_read_plan_is_plan_blocks.
+
+(** hence, over the regenerated plan itself, called with the read size and skip-back of the regenerated call site, the loop returns
+    the demanded series for every gulp.  Still trusted: that block ii of the plan begins at file sample start + ii*(read size -
+    skipback) (the seeks between reads; C01_plan_sound / C01_plan_overlap state it of the delivered samples) and the sample-major
+    layout of a read (stream_buffer; C01/C03); both are exercised by the correspondence shard c09_stream. *)
+Theorem C09_stream_over_read_plan : forall x d nchans gulp nsel start N,
+  1 <= nchans -> (exists r, 0 <= r < nchans /\ 0 <= d r) -> 1 <= gulp -> span_of nchans d < nsel ->
+  exists g sb blocks,
+    Gen.Plan.fil_plan (stream_plan_gulp d nchans gulp nsel) start nsel (stream_plan_skipback d nchans gulp nsel) N (N * nchans) nchans nchans
+      = Some (g, sb, start * nchans, blocks) /\
+    forall k, stream_run x d nchans gulp nsel (map (plan_entry start g sb nchans) blocks) k
+              = if (0 <=? k) && (k <? nsel - span_of nchans d) then spec_stream x nchans start d (t0_of nchans d) k else 0.
+Proof. exact stream_over_read_plan. Qed.
+Print Assumptions C09_stream_over_read_plan.
+
 (** ===== the paths agree; pulse restoration; inverse ===================================================== *)
 
 Theorem C09_valid_is_window_of_rotation : forall x nchans n d c t, 1 <= nchans ->
@@ -351,6 +390,20 @@ Example C09_example_stream :
   to_list 4 (stream_run ex_x ex_dneg 3 2 6 (plan_blocks 10 0 6 4 2 0)) = to_list 4 (spec_stream ex_x 3 0 ex_dneg 2) /\
   to_list 4 (spec_stream ex_x 3 0 ex_dneg 2) = [36; 39; 42; 45].
 Proof. split; [exists 0; split; [lia|vm_compute; discriminate]|]. vm_compute. repeat split; reflexivity. Qed.
+
+(** hypotheses of C09_stream_whole_file: delays [0; -1; -2], 6 samples, gulp 2 (two blocks) and gulp 100 (one block) *)
+Example C09_example_stream_whole :
+  (exists r, 0 <= r < 3 /\ 0 <= ex_dneg r) /\ span_of 3 ex_dneg < 6 /\ 6 <= Z.of_nat 10 /\
+  length (plan_blocks 10 1 6 (Z.min 6 (stream_plan_gulp ex_dneg 3 2 6)) (stream_plan_skipback ex_dneg 3 2 6) 0) = 2%nat /\
+  plan_blocks 10 1 6 (Z.min 6 (stream_plan_gulp ex_dneg 3 100 6)) (stream_plan_skipback ex_dneg 3 100 6) 0 = [(6, 0, 1)].
+Proof. split; [exists 0; split; [lia|vm_compute; discriminate]|]. vm_compute. repeat split; try reflexivity; discriminate. Qed.
+
+(** the regenerated plan for 6 samples from sample 1, read size 4, skip-back 2, 3 channels: two blocks, as plan_blocks lists them *)
+Example C09_example_read_plan :
+  Gen.Plan.fil_plan 4 1 6 2 10 30 3 3 = Some (4, 2, 3, [(0, 12, -6); (1, 12, -6)]) /\
+  map (plan_entry 1 4 2 3) [(0, 12, -6); (1, 12, -6)] = C09_Stream.plan_blocks 7 1 6 4 2 0 /\
+  C09_Stream.plan_blocks 7 1 6 4 2 0 = [(4, 0, 1); (4, 1, 3)].
+Proof. vm_compute. repeat split; reflexivity. Qed.
 
 (** the law at 1400 MHz against 1500 MHz, DM 10, 1 ms: exact value 2.728..., and a genuine tie (delay 2.5 -> 2) *)
 Example C09_example_law :
